@@ -3,6 +3,7 @@
 //! /repo's working tree, and writes inputs + observations as Coq terms for the model side.
 mod out;
 mod rng;
+mod c01;
 mod c02;
 mod c05;
 mod c07;
@@ -33,6 +34,8 @@ fn main() {
         std::process::exit(2);
     }
     let cmd = argv[1].clone();
+    if cmd == "c01-obs" { c01::obs_child(&argv[2], argv.get(3).map(|s| s.as_str()).unwrap_or("")); return; }
+    if cmd == "c01-case" { c01::replay(&argv[2]); return; }
     if cmd == "gcprobe" { gcprobe::run(&argv[2]); return; }
     if cmd == "probe" { if argv[2] == "handles" { probes::handles(); } else if argv[2] == "c02-guard-children" { probes::guard_children(); } else if argv[2] == "closure-labels" { probes::closure_labels(); } else { probes::run(&argv[2]); } return; }
     let mut a = Args { prop: argv[2].clone(), seed: 1, n: 300, tier: "quick".into(), out: PathBuf::from("work") };
@@ -49,6 +52,7 @@ fn main() {
     out::start_watchdog();
     std::panic::set_hook(Box::new(|_| {}));
     match (cmd.as_str(), a.prop.as_str()) {
+        ("gen", "C01") => c01::gen(&a),
         ("gen", "C02") => c02::gen(&a),
         ("gen", "C05") => c05::gen(&a),
         ("gen", "C07") => c07::gen(&a),
